@@ -221,8 +221,14 @@ CLAIMS = {
              "control structures of any depth, blank/comment/preprocessor lines anywhere): the Function scope has counted every "
              "line end when its closing brace is processed, and TOO_MANY_LINES is emitted exactly once iff the body has more than "
              "25 line ends (none at 25, always at 26); the model is compared with the implementation after every statement.  "
-             "Partial: the counters behind functions/parameters/variables and the block-comment widths are searched "
-             "exhaustively over that family, not proved; bare blocks and switch are outside the body grammar.",
+             "THE OTHER COUNTERS (counting code translated from the source on every run): over any file trace TOO_MANY_FUNCS "
+             "is emitted exactly at the function definitions beyond the fifth (count = max 0 (k - 5); prototypes, globals, user "
+             "types do not count); for a function whose block starts with v declarations TOO_MANY_VARS_FUNC count = max 0 (v - 5), "
+             "the counter starting afresh per function; on the token list of ANY parameter list (nested parentheses, pointers, "
+             "function pointers) TOO_MANY_ARGS iff more than 4 parameters.  All compared with the implementation after every "
+             "statement / on every CheckFuncDeclaration invocation.  Partial: block-comment widths are searched exhaustively, "
+             "not proved; bare blocks, switch, declarations nested in control structures and function-pointer-returning "
+             "declarators are outside the theorems' grammars (covered by the correspondence).",
         ref="DESIGN.md 4.3", technique="Rocq proof (line width vs token columns from the lexer invariant; line-counter theorem over a scope-trace model generated from source) + per-statement correspondence + exhaustive boundary-family search",
         note=NOTE + "Not modelled: scope bookkeeping of the primaries behind the four counters."),
     "C05": dict(
